@@ -504,6 +504,20 @@ func c17Run(c *Ctx) {
 			c17Judge(c, &Case{Gen: "builtin-arity-kinds", Src: src, X: map[string]string{"fn": "argument-forms", "nargs": "1"}})
 		}
 	}
+	// 3e4. built-ins called from loop bodies that skip rounds, from functions and on arrays written over several lines
+	for _, src := range []string{
+		Lines(Fun("rootsum", "xs", " "+K["var"]+" s = 0, i = 0; "+While("i < "+BI("len", "xs"), "{ "+Var("x", "xs[i]")+" i = i + 1; "+If("x < 0", "{ "+Continue()+" }")+" s = s + "+BI("sqrt", "x")+"; }")+" "+Ret(BI("round", "s"))+" "), Print("rootsum([16, -4, 9, -1, 25])"), Print(BI("pow", "rootsum([4, -4])", "2"))),
+		Lines(Var("xs", "[16, -4, 9, -1, 25]"), Var("i", "0"), While("i < "+BI("len", "xs"), "{ "+Var("x", "xs[i]")+" i = i + 1; "+If("x < 0", "{ "+Continue()+" }")+" "+Print(BI("sqrt", "x"))+" }"), Print(BI("max", "xs")), For(Var("j", "0"), "j < 5", "j = j + 1", "{ "+If("xs[j] > 0", Continue())+" "+Print(BI("abs", "xs[j]"))+" }")),
+		Lines("// readings, one per line", K["var"]+" m = [\n    12.5,\n    18.25,\n    -3.5,\n    9\n];", Print(BI("max", "m")), Print(BI("min", "m")), Print(BI("abs", BI("min", "m"))), K["var"]+" pt = {\n  x: 3,\n  y: 4\n};", Print(BI("sqrt", BI("pow", "pt.x", "2")+" + "+BI("pow", "pt.y", "2"))), Print(BI("len", "m"))),
+		Lines(Print(BI("max", "[\n 1,\n 5,\n 2\n]")), Print(BI("min", "\n 4,\n 2\n")), Var("e", "[\n]"), Print(BI("len", "e"))),
+	} {
+		if c.Mine() {
+			c17Judge(c, &Case{Gen: "builtin-arity-kinds", Src: src, X: map[string]string{"fn": "loops-and-layout", "nargs": "1"}})
+		}
+		if c.Mine() {
+			c17Judge(c, &Case{Gen: "builtin-arity-kinds-cli", Mode: "cli", Src: src, X: map[string]string{"fn": "loops-and-layout", "nargs": "1"}})
+		}
+	}
 	// 3e2. a variable declared without a value holds nil, also when it follows an initialised one in a list; a call followed by a comment that ends the text
 	for _, src := range []string{
 		Lines(K["var"]+" root = "+BI("sqrt", "16")+", res;", Print(`"before"`), Print(BI("abs", "res")), Print(`"AFTER"`)), Lines(K["var"]+" base = 2, ex;", Print(BI("pow", "base", "ex"))), Lines(K["var"]+" best = 9, other, third;", Print(BI("max", "best", "9")), Print(BI("min", "other", "1"))),
